@@ -194,3 +194,7 @@ mod unicodetables;
 
 #[cfg(feature = "backend-pikevm")]
 mod pikevm;
+
+#[cfg(feature = "verif")]
+#[doc(hidden)]
+pub mod verif;
